@@ -11,7 +11,7 @@ from checks import c03
 from vlib import build, crypto_ref as C, runner
 
 PID = "C09"
-ASPECTS = ["mac", "auth_flag", "strict", "panic", "deaf"]
+ASPECTS = ["mac", "auth_flag", "strict", "panic", "deaf", "create"]
 
 
 def rig_r(chk, tier, seed):
